@@ -22,6 +22,8 @@ def make_db(rng, n):
     for i in range(n):
         s = rng.randint(1, 12)
         e = s + rng.randint(0, 6)
+        if rng.random() < 0.08:
+            s, e = e + rng.randint(1, 3), s          # a reversed record (start > end): stored as written, sorted by its (negative) end - start
         f = G.feat(rng.choice(TYPES), s, e, [("ID", ["f%d" % i])], seqid=rng.choice(SEQIDS), source=rng.choice(["b", "a", "B"]),
                    strand=rng.choice(["+", "-", "."]), score=rng.choice(SCORES), frame=rng.choice([".", "0", "1"]))
         objs.append(G.real_feature(f))
